@@ -115,6 +115,7 @@ type c39State struct {
 	wasActive map[string]bool
 
 	bad    []hbfs.Fail
+	lastStale bool
 	staleD int // (d)-shaped anomalies seen on reconciles with a stale block cache (informational)
 	writes int
 }
@@ -328,6 +329,7 @@ func c39Names(m map[string]*v3.IPPool) []string {
 // reconcile runs the real reconcile() and evaluates the statement's clauses on the truth world.
 func (s *c39State) reconcile(ipamFail bool) {
 	freshP, freshB := s.poolsFresh(), s.blocksFresh()
+	s.lastStale = false
 	before := s.snapshot()
 	wasActive := map[string]bool{}
 	for k, v := range s.wasActive {
@@ -349,6 +351,7 @@ func (s *c39State) reconcile(ipamFail bool) {
 				s.fail("pool-released-while-blocks-remain", "pool %s (%s), allocatable when it was deleted, lost its finalizer and is gone although a block inside it still exists (blocks %v)", n, b.Spec.CIDR, s.blockList())
 			} else {
 				s.staleD++
+				s.lastStale = true
 			}
 		}
 	}
@@ -383,7 +386,9 @@ func (s *c39State) reconcile(ipamFail bool) {
 		// (c) a terminating pool keeps masking overlapping pools until it is gone
 		for _, tn := range ns {
 			t := after[tn]
-			if t.DeletionTimestamp == nil {
+			if t.DeletionTimestamp == nil || t.Spec.Disabled {
+				// an administratively disabled pool masks nothing, terminating or not (the statement is
+				// silent on disabled+terminating; the code treats it as disabled)
 				continue
 			}
 			for _, qn := range ns {
@@ -641,14 +646,20 @@ func c39Key(s *c39State) string {
 	return sb.String()
 }
 
-func c39Spec(u *c39Universe, name string, depth int, tree bool, workers int) *hbfs.Spec[*c39State, c39Ev] {
+func c39Spec(c *vk.Ctx, u *c39Universe, name string, depth int, tree bool, workers int) *hbfs.Spec[*c39State, c39Ev] {
 	sp := &hbfs.Spec[*c39State, c39Ev]{
 		Name:     name,
 		New:      func() *c39State { return c39New(u) },
 		Apply:    c39Apply,
 		Enabled:  c39Enabled,
 		Key:      c39Key,
-		Check:    func(s *c39State, hist []c39Ev) []hbfs.Fail { return s.bad },
+		Check: func(s *c39State, hist []c39Ev) []hbfs.Fail {
+			if s.lastStale && len(hist) > 0 && strings.Contains(hist[len(hist)-1].Op, "reconcile") {
+				// informational: clause (d) shape on a reconcile whose block cache was stale
+				c.Add("info_release_with_block_unseen_by_stale_block_cache", 1)
+			}
+			return s.bad
+		},
 		Show:     func(e c39Ev) string { return e.String() },
 		MaxDepth: depth,
 		Workers:  workers,
@@ -722,7 +733,7 @@ func TestVerif_C39(t *testing.T) {
 			} else if strings.HasPrefix(d.Spec, "ippool-mid") {
 				u = mid
 			}
-			fails, err := hbfs.Replay(c39Spec(u, d.Spec, 99, false, 1), d.History)
+			fails, err := hbfs.Replay(c39Spec(c, u, d.Spec, 99, false, 1), d.History)
 			if err != nil {
 				c.ToolError(err.Error())
 			}
@@ -737,11 +748,11 @@ func TestVerif_C39(t *testing.T) {
 		c.Sample(map[string]any{"history": []string{"create:p24", "syncreconcile", "create:p25a", "blockadd:10.0.0.0/26", "syncreconcile", "delete:p24", "syncreconcile", "blockdel:10.0.0.0/26", "syncreconcile", "syncreconcile"},
 			"meaning": "p24 becomes allocatable and gets the finalizer; p25a is masked (CIDROverlap); deleting p24 makes it terminating, it keeps masking p25a while the block exists; once the block is gone p24 is released and the following reconcile makes p25a allocatable"})
 		w := 6
-		hbfs.Explore(c, c39Spec(quick, "ippool-quick-graph", c.Pick(9, 14), false, w))
-		hbfs.Explore(c, c39Spec(mid, "ippool-mid-graph", c.Pick(7, 12), false, w))
-		hbfs.Explore(c, c39Spec(quick, "ippool-quick-tree", c.Pick(4, 5), true, w))
+		hbfs.Explore(c, c39Spec(c, quick, "ippool-quick-graph", c.Pick(9, 14), false, w))
+		hbfs.Explore(c, c39Spec(c, mid, "ippool-mid-graph", c.Pick(7, 12), false, w))
+		hbfs.Explore(c, c39Spec(c, quick, "ippool-quick-tree", c.Pick(4, 5), true, w))
 		if c.Thorough() {
-			hbfs.Explore(c, c39Spec(full, "ippool-full-graph", 9, false, w))
+			hbfs.Explore(c, c39Spec(c, full, "ippool-full-graph", 9, false, w))
 		}
 	})
 }
